@@ -3,6 +3,7 @@ import VaxisModel.Spec.Wrap
 import VaxisModel.Lemmas.Wrap
 import VaxisModel.Lemmas.WrapE2E
 import VaxisModel.Lemmas.WrapSplit
+import VaxisModel.Lemmas.WrapSplitPlain
 
 /-! C16, end-to-end statements: the position oracles of `Spec.Wrap` that the driver evaluates on the
 real scanners' output (`hardBreakOK`, `noNeedlessSplit`, `conserved`) are *theorems* of the model of
@@ -10,7 +11,7 @@ the whole iteration `for scanner.Scan() { lines = append(lines, scanner.Text()) 
 every positive width and every segmentation oracle meeting the stated hypotheses. -/
 namespace VaxisModel.Props.C16E2E
 open VaxisModel.Model.Wrap VaxisModel.Lemmas.Wrap
-open VaxisModel.Spec.Wrap (nonWs content conserved hardBreakOK noNeedlessSplit noTermInLines)
+open VaxisModel.Spec.Wrap (nonWs content conserved hardBreakOK noNeedlessSplit noTermInLines segChain noNeedlessSplitRuns)
 
 /-- "A hard line break always ends the current line", end to end: in the lines of the whole
 iteration, two consecutive non-whitespace graphemes of the input that are separated by a line
@@ -74,6 +75,29 @@ theorem rich_no_needless_split_end_to_end (lb : Nat → Nat → Bool) (width : N
     (ls : List (List Cell)) (h : richLines lb width cells = .ok ls) :
     noNeedlessSplit lb width cells ls = true :=
   richLines_noNeedlessSplit lb width hw cells hsp ls h
+
+/-- "never split a run of letters that would fit on a line of its own", end to end, for a scanner
+over **any** (stateful) segmentation oracle — the plain-text scanner over uniseg: the runs are the
+segments of the segmenter's own segmentation of the whole text (`Spec.Wrap.segChain`: the chain of
+queries from the start; for uniseg, the UAX #14 segmentation), and in the lines of the whole
+iteration two neighbouring non-whitespace graphemes of one such segment land on different lines
+only if the segment without its trailing whitespace is wider than the line
+(`Spec.Wrap.noNeedlessSplitRuns`, evaluated by the driver on the real output).  `PosIndep o ini`:
+queried with the unknown state inside a segment the segmenter returns the remainder of that segment,
+and at a segment boundary it answers as with the carried state (asserted per query by the harness).
+True of text.go since the F116 fix ("x （aa bbb" at width 3 used to give "x ", "（a", "a b", "bb"). -/
+theorem plain_no_needless_split_end_to_end {σ : Type} (o : σ → List Cell → Nat × Bool × σ) (ini : σ)
+    (hok : OracleOK o) (hp : PosIndep o ini) (width : Nat) (hw : 0 < width) (cells : List Cell) (st0 : σ)
+    (ls : List (List Cell)) (h : lines o ini width cells st0 = .ok ls) :
+    noNeedlessSplitRuns (segChain o (cells.length + 1) st0 cells) width ls = true :=
+  lines_noNeedlessSplitRuns o ini hok hp width hw cells st0 ls h
+
+/-- Non-vacuity: the transcribed `firstLineSegment` is position independent for every pairwise
+break function (so the general theorem applies to richtext too, with its segments as runs). -/
+theorem rich_pos_indep (lb : Nat → Nat → Bool) : PosIndep (richOracle lb) () := by
+  refine ⟨fun st rest j hj hlt _ => ⟨?_, rfl⟩, fun st rest _ => rfl⟩
+  simp only [richOracle] at hlt ⊢
+  exact fls_drop lb rest true j hj hlt
 
 /-- Non-vacuity for `rich_no_needless_split_end_to_end`: "ab cd" at width 3 keeps "ab" and "cd" whole
 (and the oracle rejects the cutting "a" | "b cd"); "abcd" at width 3 is divided, which the oracle
